@@ -100,7 +100,7 @@ static double g_cpu_factor = 1.;  // watchdog scale (sanitizer builds are slower
 // Input rules (see main): regimes that are diagnosed as broken in the code under test and not repaired are kept out of the
 // RANDOM part by a rule on the generated input (never on the outcome); the pinned witnesses keep exercising them.
 //   A  new construction only for boxes whose rescaled big-tetrahedron corners are inside [1,2)
-//   B  every generator at least 1e-5 side away from every wall
+//   B  every generator at least 1e-5 x (largest box side) away from every wall (the loss is eps h (h/distance), h up to the box size)
 //   C  no bcc lattice in a box with three equal sides for the new construction
 //   O  old construction only if the smallest generator separation is >= 20 sqrt(OLDVORONOI_TOLERANCE) |box sides|
 //      (below sqrt(tol)|S| the documented vertex tolerance eps_old/|p| exceeds the half separation |p| itself: whole cells
@@ -170,6 +170,7 @@ static void make_case(Case &c, uint64_t id, uint64_t idx, vh::Rng r, uint64_t fo
     else c.a[k] = c.s[k] * (rbox.chance(0.34) ? (rbox.chance(0.5) ? 100. : -101.) : rbox.uniform(-1., 1.));
   }
   const double smin = std::min(c.s[0], std::min(c.s[1], c.s[2]));
+  const double smax = std::max(c.s[0], std::max(c.s[1], c.s[2]));
   // ---- size ----
   uint64_t n;
   if (forced_n) n = forced_n;
@@ -341,7 +342,7 @@ static void make_case(Case &c, uint64_t id, uint64_t idx, vh::Rng r, uint64_t fo
   }
   case WALL: {
     const double frac = c.reg == 0 ? 1. : (c.reg == 1 ? rpos.uniform(0.2, 0.6) : 0.);
-    std::snprintf(buf, sizeof buf, "near-wall fraction=%.2f distance=%s*side", frac, g_xparam > 0. ? "xparam" : (avoid('B') ? "[1e-5,1e-3]" : "[1e-12,1e-9]"));
+    std::snprintf(buf, sizeof buf, "near-wall fraction=%.2f distance=%s*side", frac, g_xparam > 0. ? "xparam" : (avoid('B') ? "[1e-5,1e-3]*largest side, in units of" : "[1e-12,1e-9]"));
     c.sub = buf;
     c.param = frac;
     for (uint64_t i = 0; i < n; ++i) {
@@ -352,7 +353,7 @@ static void make_case(Case &c, uint64_t id, uint64_t idx, vh::Rng r, uint64_t fo
         for (int q = 0; q < npin; ++q) {
           const int k = (int)rpos.below(3);
           double eps = rpos.loguniform(1e-12, 1e-9);
-          if (avoid('B')) eps = std::pow(eps * 1e12, 2. / 3.) * 1e-5; // rule B: same draw mapped to [1e-5, 1e-3]
+          if (avoid('B')) eps = std::min(0.4, std::pow(eps * 1e12, 2. / 3.) * 1e-5 * smax / c.s[k]); // rule B: same draw mapped to [1e-5, 1e-3] x largest side
           if (g_xparam > 0.) eps = g_xparam;
           x[k] = rpos.chance(0.5) ? c.a[k] + c.s[k] * eps : c.a[k] + c.s[k] * (1. - eps);
         }
@@ -363,9 +364,10 @@ static void make_case(Case &c, uint64_t id, uint64_t idx, vh::Rng r, uint64_t fo
   }
   }
   // strictly inside, distinct
-  const double margin = avoid('B') ? 1e-5 : 1e-12;
   for (size_t i = 0; i < p.size(); ++i) {
-    const CV q(clampin(p[i].x(), c.a[0], c.s[0], margin), clampin(p[i].y(), c.a[1], c.s[1], margin), clampin(p[i].z(), c.a[2], c.s[2], margin));
+    double mg[3];
+    for (int k = 0; k < 3; ++k) mg[k] = avoid('B') ? std::min(0.25, 1e-5 * smax / c.s[k]) : 1e-12;
+    const CV q(clampin(p[i].x(), c.a[0], c.s[0], mg[0]), clampin(p[i].y(), c.a[1], c.s[1], mg[1]), clampin(p[i].z(), c.a[2], c.s[2], mg[2]));
     if (avoid('B') && (q.x() != p[i].x() || q.y() != p[i].y() || q.z() != p[i].z())) c.moved_by_rule_B = true;
     p[i] = q;
   }
@@ -578,6 +580,9 @@ static void run_grid(const Case &c, int ctor, GridRec &g) {
 //    standard double precision circumcentre formula has forward error ~eps*h*(h/d)^2.
 //    c_i = 16 [ q (1 + h_i/dd_i) + eps h_i (h_i/dd_i)^2 ],  t_i = 1e-9 h_i + c_i,
 //    dd_i = the smallest distance between any two of {generator i and its face neighbours}.
+//    (c) a lattice displaced by a << spacing has Delaunay slivers of thickness ~a (four nearly
+//    coplanar, nearly cocircular generators); their circumcentre moves by q*h/a when the input
+//    moves by one quantum q: c_i += 16 q h_i / a (a is a parameter of the generated set).
 //    Walls are exact planes and get no such allowance: a generator 1e-12 from a wall does
 //    not make the Voronoi problem ill conditioned.
 //  * a boundary displaced by t changes a face area by <= t * perimeter, a volume by <= t * surface,
@@ -617,6 +622,7 @@ static void run_grid(const Case &c, int ctor, GridRec &g) {
 struct Geo {
   LD a[3], s[3];
   LD vbox, ascale, amin, lmax, diag, boxsurf, quantum, eps_old;
+  LD sliver; // known thickness scale of the thinnest Delaunay tetrahedra (perturbed lattices: the displacement amplitude), else -1
   std::vector< LD > x;  // 3n generators
   std::vector< LD > nn; // distance of every generator to its nearest generator (brute force)
   LD nnmin;
@@ -774,6 +780,7 @@ static bool eval_grid(const Case &c, const Geo &G, const GridRec &g, int ctor, s
     }
     const LD ratio = (q.dd > 0) ? q.h / q.dd : 0;
     q.cond = 16 * (G.quantum * (1 + ratio) + 2.220446049250313e-16L * q.h * ratio * ratio);
+    if (G.sliver > 0) q.cond += 16 * G.quantum * q.h / G.sliver; // (c) see above
     q.t = REL_LEN * q.h + q.cond;
     st.maxd("max_conditioning_allowance_over_cellsize_" + cn, q.h > 0 ? (double)(q.cond / q.h) : 0.);
     if (q.cond > 0.1L * REL_LEN * q.h) st.inc("cells_with_conditioning_allowance_above_1e-10_cellsize_" + cn);
@@ -1140,6 +1147,7 @@ int main(int argc, char **argv) {
     G.diag = sqrtl(G.s[0] * G.s[0] + G.s[1] * G.s[1] + G.s[2] * G.s[2]);
     G.boxsurf = 2 * (G.s[0] * G.s[1] + G.s[1] * G.s[2] + G.s[2] * G.s[0]);
     G.quantum = 2.220446049250313e-16L * std::max(mag, (LD)smax);
+    G.sliver = (c.fam == PLATTICE && c.amp_abs > 0.) ? (LD)c.amp_abs : -1;
     G.eps_old = (LD)OLDVORONOI_TOLERANCE * (G.s[0] * G.s[0] + G.s[1] * G.s[1] + G.s[2] * G.s[2]);
     G.x.resize(3 * n);
     for (size_t i = 0; i < n; ++i) for (int k = 0; k < 3; ++k) G.x[3 * i + k] = c.pos[i][k];
@@ -1156,8 +1164,8 @@ int main(int argc, char **argv) {
     for (size_t i = 1; i < n; ++i) G.nnmin = std::min(G.nnmin, G.nn[i]);
     // ---- input rules (random part only) ----
     bool skip[2] = {false, false};
-    if (c.moved_by_rule_B) st.inc("rule_B_cases_with_generators_moved_to_1e-5_side_from_a_wall");
-    if (avoid('B') && fam == WALL) st.inc("rule_B_wall_family_cases_generated_at_1e-5_to_1e-3_side_from_the_walls");
+    if (c.moved_by_rule_B) st.inc("rule_B_cases_with_generators_moved_to_1e-5_largest_side_from_a_wall");
+    if (avoid('B') && fam == WALL) st.inc("rule_B_wall_family_cases_generated_at_1e-5_to_1e-3_largest_side_from_the_walls");
     if (avoid('A') && !big_tetrahedron_in_range(c)) { skip[0] = true; st.inc("rule_A_new_skipped_rescaled_corners_outside_1_2"); }
     if (avoid('C') && c.fam == LATTICE && c.lattice_kind == 2 && c.s[0] == c.s[1] && c.s[1] == c.s[2]) {
       if (!skip[0]) st.inc("rule_C_new_skipped_bcc_lattice_in_cubic_box");
